@@ -489,13 +489,13 @@ func run(id, tier string, replayFiles []string) int {
 			labels[k] = v
 		}
 		cov := map[string]interface{}{
-			"evaluations":         merged.Evals,
-			"distinct_nontrivial": len(nontriv),
-			"rule":                p.Rule,
-			"samples":             merged.Samples,
-			"labels":              labels,
-			"counters":            merged.Counters,
-			"evaluations_by_unit": unitEvals,
+			"evaluations":                 merged.Evals,
+			"distinct_nontrivial":         len(nontriv),
+			"rule":                        p.Rule,
+			"samples":                     merged.Samples,
+			"labels":                      labels,
+			"counters":                    merged.Counters,
+			"evaluations_by_unit":         unitEvals,
 			"known_findings_stepped_over": merged.KnownHits,
 		}
 		if merged.Samples == nil {
